@@ -266,19 +266,22 @@ Let Ec (zz : nat -> nat -> C) := mix_E RO (cacg_par (T:=R)) K' tiny eps clip b
 Let Mc (zz : nat -> nat -> C) := mix_M (cacg_par (T:=R)) wfun
     (cacgmm_mstep_c RO D' N tiny sal style_where herm cov_norm floor eigh zz).
 
+Let ms (zz : nat -> nat -> C) := cacgmm_mstep_c RO D' N tiny sal style_where herm cov_norm floor eigh zz.
+Let lp (zz : nat -> nat -> C) := cacgmm_logpdf_c RO D' tiny style_where zz.
+Let qf (zz : nat -> nat -> C) := cacgmm_quad_c RO D' tiny style_where zz.
 Theorem fit_gain_inv_cacgmm n g0 :
   RTn (cacg_par (T:=R)) N (fit (Ec z) (Mc z) n g0) (fit (Ec z') (Mc z') n g0).
-Proof. apply (fit_gain_inv (cacg_par (T:=R)) K' N tiny eps clip b wfun); auto.
-  - apply cacgmm_mstep_gain_inv. - apply cacgmm_logpdf_gain_inv. - apply cacgmm_quad_gain_inv. - apply RGn_refl. Qed.
+Proof. exact (fit_gain_inv _ K' N tiny eps clip b wfun (ms z) (ms z') (lp z) (lp z') (qf z) (qf z') wfun_local
+    cacgmm_mstep_gain_inv cacgmm_logpdf_gain_inv cacgmm_quad_gain_inv n g0 g0 (RGn_refl N g0)). Qed.
 Theorem predict_gain_inv_cacgmm n g0 :
   RGn N (Ec z (fit (Ec z) (Mc z) n g0)) (Ec z' (fit (Ec z') (Mc z') n g0)).
-Proof. apply (predict_gain_inv (cacg_par (T:=R)) K' N tiny eps clip b wfun); auto.
-  - apply cacgmm_mstep_gain_inv. - apply cacgmm_logpdf_gain_inv. - apply cacgmm_quad_gain_inv. - apply RGn_refl. Qed.
+Proof. exact (predict_gain_inv _ K' N tiny eps clip b wfun (ms z) (ms z') (lp z) (lp z') (qf z) (qf z') wfun_local
+    cacgmm_mstep_gain_inv cacgmm_logpdf_gain_inv cacgmm_quad_gain_inv n g0 g0 (RGn_refl N g0)). Qed.
 Theorem loglik_gain_inv_cacgmm n g0 :
   mix_loglik RO _ K' (cacgmm_logpdf_c RO D' tiny style_where z) N (snd (fit (Ec z) (Mc z) n g0))
   = mix_loglik RO _ K' (cacgmm_logpdf_c RO D' tiny style_where z') N (snd (fit (Ec z') (Mc z') n g0)).
-Proof. apply (loglik_gain_inv (cacg_par (T:=R)) K' N tiny eps clip b wfun); auto.
-  - apply cacgmm_mstep_gain_inv. - apply cacgmm_logpdf_gain_inv. - apply cacgmm_quad_gain_inv. - apply RGn_refl. Qed.
+Proof. exact (loglik_gain_inv _ K' N tiny eps clip b wfun (ms z) (ms z') (lp z) (lp z') (qf z) (qf z') wfun_local
+    cacgmm_mstep_gain_inv cacgmm_logpdf_gain_inv cacgmm_quad_gain_inv n g0 g0 (RGn_refl N g0)). Qed.
 
 (* integration models (GCACGMM, vMF-cACGMM): gains on the spatial stream, second stream untouched *)
 Variable ParE : Type.
@@ -304,8 +307,8 @@ Proof.
                                        = integ_quad_c RO D' tiny style_where z' ParE p n).
   { intros p m Hm0. unfold integ_quad_c. apply cacgmm_quad_gain_inv; auto. }
   split.
-  - apply (fit_gain_inv _ K' N tiny eps clip b wfun); auto. apply RGn_refl.
-  - apply (predict_gain_inv _ K' N tiny eps clip b wfun); auto. apply RGn_refl. Qed.
+  - exact (fit_gain_inv _ K' N tiny eps clip b wfun _ _ _ _ _ _ wfun_local A1 A2 A3 n g0 g0 (RGn_refl N g0)).
+  - exact (predict_gain_inv _ K' N tiny eps clip b wfun _ _ _ _ _ _ wfun_local A1 A2 A3 n g0 g0 (RGn_refl N g0)). Qed.
 End Loop.
 End CACGGain.
 
@@ -323,17 +326,17 @@ Lemma wat_unit_scale n d : (n < N)%nat -> wat_unit RO D' tiny z' n d = phasor (c
 Proof. intros Hn. unfold wat_unit. destruct (Hz n Hn). apply cunit_max_scale; auto. lra. Qed.
 (* predict normalises the already normalised observation once more: still only a unit phasor apart *)
 Lemma wat_unit2_scale n d : (n < N)%nat -> wat_unit2 RO D' tiny z' n d = phasor (c n) * wat_unit2 RO D' tiny z n d.
-Proof. intros Hn. unfold wat_unit2. destruct (Hz n Hn) as [H1 H2].
+Proof. intros Hn. unfold wat_unit2. destruct (Hz n Hn) as [H1 H2]. unfold D in H1, H2.
   rewrite (functional_extensionality (wat_unit RO D' tiny z' n) (fun d => phasor (c n) * wat_unit RO D' tiny z n d))
     by (intros; apply wat_unit_scale; auto).
-  assert (E1 : cnorm RO D (wat_unit RO D' tiny z n) = 1%R) by (apply cnorm_cunit_max; lra).
+  assert (E1 : cnorm RO (S D') (wat_unit RO D' tiny z n) = 1%R) by (apply cnorm_cunit_max; lra).
   pose proof (phasor_mod (c n) (Hc n Hn)) as Hp.
   rewrite cunit_max_scale.
   - rewrite (phasor_unit _ Hp). reflexivity.
   - intro E. rewrite E, Cmod_0 in Hp. lra.
   - lra.
-  - fold D. rewrite E1. lra.
-  - fold D. rewrite E1, Hp. lra. Qed.
+  - rewrite E1. lra.
+  - rewrite E1, Hp. lra. Qed.
 
 Theorem cwmm_cov_gain_inv r r' : (forall n, (n < N)%nat -> r n = r' n) ->
   cwmm_cov RO D' N tiny sal z' r' = cwmm_cov RO D' N tiny sal z r.
@@ -378,22 +381,28 @@ Let Mw (zz : nat -> nat -> C) := mix_M _ wfun (cwmm_mstep_c RO D' N tiny sal wat
 Theorem fit_gain_inv_cwmm n g0 :
   RTn _ N (fit (Ew z) (Mw z) n g0) (fit (Ew z') (Mw z') n g0) /\
   RGn N (Ew z (fit (Ew z) (Mw z) n g0)) (Ew z' (fit (Ew z') (Mw z') n g0)).
-Proof. split.
-  - apply (fit_gain_inv _ K' N tiny eps clip b wfun); auto.
-    + intros; apply cwmm_mstep_gain_inv; auto. + apply cwmm_logpdf_gain_inv. + apply RGn_refl.
-  - apply (predict_gain_inv _ K' N tiny eps clip b wfun); auto.
-    + intros; apply cwmm_mstep_gain_inv; auto. + apply cwmm_logpdf_gain_inv. + apply RGn_refl. Qed.
+Proof.
+  assert (A1 : forall r r' q q', (forall n, (n < N)%nat -> r n = r' n) -> (forall n, (n < N)%nat -> q n = q' n) ->
+     cwmm_mstep_c RO D' N tiny sal wat_oracle z r q = cwmm_mstep_c RO D' N tiny sal wat_oracle z' r' q')
+    by (intros; apply cwmm_mstep_gain_inv; auto).
+  assert (A3 : forall p m, (m < N)%nat -> noq p m = noq p m) by reflexivity.
+  split.
+  - exact (fit_gain_inv _ K' N tiny eps clip b wfun _ _ _ _ _ _ wfun_local A1 cwmm_logpdf_gain_inv A3 n g0 g0 (RGn_refl N g0)).
+  - exact (predict_gain_inv _ K' N tiny eps clip b wfun _ _ _ _ _ _ wfun_local A1 cwmm_logpdf_gain_inv A3 n g0 g0 (RGn_refl N g0)). Qed.
 Let noqb : ((nat -> nat -> C) * ((nat -> R) * R)) -> nat -> R := fun _ _ => 0%R.
 Let Eb (zz : nat -> nat -> C) := mix_E RO _ K' tiny eps clip b (cbmm_logpdf_c RO D' tiny zz) noqb.
 Let Mb (zz : nat -> nat -> C) := mix_M _ wfun (cbmm_mstep_c RO D' N tiny sal zz bing_oracle).
 Theorem fit_gain_inv_cbmm n g0 :
   RTn _ N (fit (Eb z) (Mb z) n g0) (fit (Eb z') (Mb z') n g0) /\
   RGn N (Eb z (fit (Eb z) (Mb z) n g0)) (Eb z' (fit (Eb z') (Mb z') n g0)).
-Proof. split.
-  - apply (fit_gain_inv _ K' N tiny eps clip b wfun); auto.
-    + intros; apply cbmm_mstep_gain_inv; auto. + apply cbmm_logpdf_gain_inv. + apply RGn_refl.
-  - apply (predict_gain_inv _ K' N tiny eps clip b wfun); auto.
-    + intros; apply cbmm_mstep_gain_inv; auto. + apply cbmm_logpdf_gain_inv. + apply RGn_refl. Qed.
+Proof.
+  assert (A1 : forall r r' q q', (forall n, (n < N)%nat -> r n = r' n) -> (forall n, (n < N)%nat -> q n = q' n) ->
+     cbmm_mstep_c RO D' N tiny sal z bing_oracle r q = cbmm_mstep_c RO D' N tiny sal z' bing_oracle r' q')
+    by (intros; apply cbmm_mstep_gain_inv; auto).
+  assert (A3 : forall p m, (m < N)%nat -> noqb p m = noqb p m) by reflexivity.
+  split.
+  - exact (fit_gain_inv _ K' N tiny eps clip b wfun _ _ _ _ _ _ wfun_local A1 cbmm_logpdf_gain_inv A3 n g0 g0 (RGn_refl N g0)).
+  - exact (predict_gain_inv _ K' N tiny eps clip b wfun _ _ _ _ _ _ wfun_local A1 cbmm_logpdf_gain_inv A3 n g0 g0 (RGn_refl N g0)). Qed.
 End Loop.
 End WatsonGain.
 
@@ -421,7 +430,8 @@ Lemma vmf_fit_local (y y' : nat -> nat -> R) s s' :
   vmf_mean RO D N tiny y' s' = vmf_mean RO D N tiny y s /\ vmf_kappa RO D N kmin kmax y' s' = vmf_kappa RO D N kmin kmax y s.
 Proof. intros Hy Hs. pose proof (vmf_r_local y y' s s' Hy Hs) as Er. split.
   - apply functional_extensionality; intros d. unfold vmf_mean. rewrite Er. reflexivity.
-  - unfold vmf_kappa, vmf_rbar. rewrite Er. do 4 f_equal. rewrite !bsum_RO. apply rsum_ext; intros n Hn. apply Hs; auto. Qed.
+  - assert (Es : bsum RO N s' = bsum RO N s) by (rewrite !bsum_RO; apply rsum_ext; intros n Hn; apply Hs; auto).
+    unfold vmf_kappa, vmf_rbar. rewrite Er, Es. reflexivity. Qed.
 
 Theorem vmfmm_mstep_gain_inv r r' (q q' : nat -> R) : (forall n, (n < N)%nat -> r n = r' n) ->
   vmfmm_mstep_c RO D N tiny kmin kmax sal v r q = vmfmm_mstep_c RO D N tiny kmin kmax sal v' r' q'.
@@ -452,11 +462,14 @@ Let Mv (vv : nat -> nat -> R) := mix_M _ wfun (vmfmm_mstep_c RO D N tiny kmin km
 Theorem fit_gain_inv_vmfmm n g0 :
   RTn _ N (fit (Ev v) (Mv v) n g0) (fit (Ev v') (Mv v') n g0) /\
   RGn N (Ev v (fit (Ev v) (Mv v) n g0)) (Ev v' (fit (Ev v') (Mv v') n g0)).
-Proof. split.
-  - apply (fit_gain_inv _ K' N tiny eps clip b wfun); auto.
-    + intros; apply vmfmm_mstep_gain_inv; auto. + apply vmfmm_logpdf_gain_inv. + apply RGn_refl.
-  - apply (predict_gain_inv _ K' N tiny eps clip b wfun); auto.
-    + intros; apply vmfmm_mstep_gain_inv; auto. + apply vmfmm_logpdf_gain_inv. + apply RGn_refl. Qed.
+Proof.
+  assert (A1 : forall r r' q q', (forall n, (n < N)%nat -> r n = r' n) -> (forall n, (n < N)%nat -> q n = q' n) ->
+     vmfmm_mstep_c RO D N tiny kmin kmax sal v r q = vmfmm_mstep_c RO D N tiny kmin kmax sal v' r' q')
+    by (intros; apply vmfmm_mstep_gain_inv; auto).
+  assert (A3 : forall p m, (m < N)%nat -> noq p m = noq p m) by reflexivity.
+  split.
+  - exact (fit_gain_inv _ K' N tiny eps clip b wfun _ _ _ _ _ _ wfun_local A1 vmfmm_logpdf_gain_inv A3 n g0 g0 (RGn_refl N g0)).
+  - exact (predict_gain_inv _ K' N tiny eps clip b wfun _ _ _ _ _ _ wfun_local A1 vmfmm_logpdf_gain_inv A3 n g0 g0 (RGn_refl N g0)). Qed.
 End Loop.
 End VMFGain.
 
@@ -464,8 +477,8 @@ End VMFGain.
    gain 1/2 gives concentration 1/4 instead of 1/2 *)
 Theorem vmfcacg_emb_raw_not_invariant :
   exists (v : nat -> nat -> R) (c : R) (s : nat -> R), (0 < c)%R /\
-    snd (vmfcacg_emb_mstep_raw RO 1 1 (/ 1000) 0 500 (fun n d => c * v n d)%R s)
-    <> snd (vmfcacg_emb_mstep_raw RO 1 1 (/ 1000) 0 500 v s).
+    snd (vmfcacg_emb_mstep_raw RO 1 1 (/ 1000)%R 0%R 500%R (fun n d => c * v n d)%R s)
+    <> snd (vmfcacg_emb_mstep_raw RO 1 1 (/ 1000)%R 0%R 500%R v s).
 Proof. exists (fun _ _ => / 2)%R, (/ 2)%R, (fun _ => 1%R). split. lra.
   unfold vmfcacg_emb_mstep_raw. cbn [snd]. unfold vmf_kappa, vmf_rbar, vmf_kappa_raw, rnorm, rnorm2, vmf_r, odiv, osub.
   cbn [bsum onat omul oadd oopp oinv osqrt o0 o1 RO]. rewrite !omin_RO, !omax_RO.
@@ -473,6 +486,33 @@ Proof. exists (fun _ _ => / 2)%R, (/ 2)%R, (fun _ => 1%R). split. lra.
   replace (0 + (0 + 1 * / 2) * (0 + 1 * / 2))%R with ((/ 2) * (/ 2))%R by field.
   rewrite !sqrt_square by lra.
   replace (/ 4 * / (0 + 1))%R with (/ 4)%R by field. replace (/ 2 * / (0 + 1))%R with (/ 2)%R by field.
+  rewrite (Rmin_left (/ 4) 1) by lra. rewrite (Rmin_left (/ 2) 1) by lra.
   replace ((/ 4 * (0 + 1) + - (/ 4 * (/ 4 * / 4))) * / (1 + - (/ 4 * / 4)))%R with (/ 4)%R by field.
   replace ((/ 2 * (0 + 1) + - (/ 2 * (/ 2 * / 2))) * / (1 + - (/ 2 * / 2)))%R with (/ 2)%R by field.
   unfold Rmin, Rmax. repeat (destruct (Rle_dec _ _)); lra. Qed.
+
+(* ------------------------------------------------------------------ every weight rule reads the affiliation on the cells only *)
+Section WeightLocal.
+Variables (K' G N : nat) (cells : nat -> nat -> nat) (s : nat -> R) (eps : R).
+Hypothesis Hcells : forall n g, (n < N)%nat -> (g < G)%nat -> (cells n g < N)%nat.
+Variables a a' : nat -> nat -> R.
+Hypothesis Ha : forall k n, (n < N)%nat -> a k n = a' k n.
+
+Lemma wsum_local k n : (n < N)%nat ->
+  wsum RO G (fun j g => a j (cells n g)) (fun g => s (cells n g)) k
+  = wsum RO G (fun j g => a' j (cells n g)) (fun g => s (cells n g)) k.
+Proof. intros Hn. unfold wsum. rewrite !bsum_RO. apply rsum_ext; intros g Hg. rewrite Ha; auto. Qed.
+Theorem w_mean_local k n : (n < N)%nat -> w_mean RO G cells a k n = w_mean RO G cells a' k n.
+Proof. intros Hn. unfold w_mean, weight_mean. f_equal. rewrite !bsum_RO. apply rsum_ext; intros g Hg. apply Ha; auto. Qed.
+Theorem w_const_local k n : (n < N)%nat -> w_const RO K' a k n = w_const RO K' a' k n.
+Proof. reflexivity. Qed.
+Theorem w_sal_local k n : (n < N)%nat -> w_sal RO K' G cells s eps a k n = w_sal RO K' G cells s eps a' k n.
+Proof. intros Hn. unfold w_sal, weight_sal.
+  assert (E : wnorm1 RO K' G (fun j g => a j (cells n g)) (fun g => s (cells n g))
+            = wnorm1 RO K' G (fun j g => a' j (cells n g)) (fun g => s (cells n g))).
+  { unfold wnorm1. rewrite !bsum_RO. apply rsum_ext; intros j Hj. rewrite wsum_local; auto. }
+  rewrite E, wsum_local; auto. Qed.
+Theorem w_integ_local k n : (n < N)%nat -> w_integ RO K' G cells s a k n = w_integ RO K' G cells s a' k n.
+Proof. intros Hn. unfold w_integ. rewrite wsum_local by auto. f_equal. f_equal. rewrite !bsum_RO.
+  apply rsum_ext; intros j Hj. apply wsum_local; auto. Qed.
+End WeightLocal.
